@@ -22,10 +22,14 @@ pub struct DeepSc {
     /// tail "generic": one fault of the stream seam at an absolute item index of the document text:
     /// (kind: fail | end | flip | insert | drop, position, character for flip/insert)
     pub fault: Option<(String, u64, char)>,
+    /// shape "embedded": a small outer document with the placeholder U+0001 where the deep closed
+    /// value goes (an element / member value somewhere inside it); with tail "generic-from-end" the
+    /// fault position counts back from the end of the text (0 = after the last character)
+    pub outer: Option<String>,
 }
 
 pub const SHAPES: [&str; 6] = ["array-open", "array-closed", "object-open", "object-closed", "mixed-closed", "wide-closed"];
-pub const TAILS: [&str; 15] = ["none", "end-in", "fail-in", "end-out", "fail-out", "wrong-closer", "garbage-after-root", "outer-garbage", "outer-missing-colon", "outer-end", "outer-fail", "fail-after-root", "ws-fail-after-root", "ws-garbage-after-root", "generic"];
+pub const TAILS: [&str; 16] = ["none", "end-in", "fail-in", "end-out", "fail-out", "wrong-closer", "garbage-after-root", "outer-garbage", "outer-missing-colon", "outer-end", "outer-fail", "fail-after-root", "ws-fail-after-root", "ws-garbage-after-root", "generic", "generic-from-end"];
 
 impl DeepSc {
     pub fn to_json(&self) -> J {
@@ -34,6 +38,7 @@ impl DeepSc {
             ("tail".into(), J::from(self.tail.as_str())), ("tail_at".into(), J::UInt(self.tail_at)), ("via".into(), J::from(self.via.as_str())),
             ("options".into(), J::Arr(vec![J::Bool(self.opts.0), J::Bool(self.opts.1)])),
             ("fault".into(), match &self.fault { Some((k, p, c)) => J::Arr(vec![J::from(k.as_str()), J::UInt(*p), J::UInt(*c as u64)]), None => J::Null }),
+            ("outer".into(), match &self.outer { Some(o) => J::Str(o.clone()), None => J::Null }),
         ])
     }
     pub fn from_json(j: &J) -> Result<DeepSc, String> {
@@ -45,12 +50,14 @@ impl DeepSc {
             _ => None,
         };
         Ok(DeepSc { shape: s("shape")?, depth: u("depth")?, stack_kib: u("stack_kib")?, tail: s("tail")?, tail_at: u("tail_at")?, via: s("via")?,
-            opts: (o.first().and_then(J::as_bool).unwrap_or(false), o.get(1).and_then(J::as_bool).unwrap_or(false)), fault })
+            opts: (o.first().and_then(J::as_bool).unwrap_or(false), o.get(1).and_then(J::as_bool).unwrap_or(false)), fault,
+            outer: j.get("outer").and_then(J::as_str).map(String::from) })
     }
     pub fn digest(&self) -> u64 {
         let mut d = crate::kernel::rng::Digest::default();
         d.str(&self.shape); d.u64(self.depth); d.u64(self.stack_kib); d.str(&self.tail); d.u64(self.tail_at); d.str(&self.via);
         if let Some((k, p, c)) = &self.fault { d.str(k); d.u64(*p); d.u64(*c as u64); }
+        if let Some(o) = &self.outer { d.str(o); }
         d.finish()
     }
 
@@ -61,6 +68,11 @@ impl DeepSc {
 
     /// The document text and whether the stream fails after it.
     pub fn text(&self) -> (String, bool) {
+        if let Some(outer) = &self.outer {
+            // the deep closed value (shape `self.shape`, no tail of its own) embedded in the outer document
+            let inner = DeepSc { outer: None, tail: "none".into(), fault: None, ..self.clone() }.text().0;
+            return (outer.replacen('\u{1}', &inner, 1), false);
+        }
         let n = self.depth;
         let wide = self.shape == "wide-closed";
         let mut s = String::with_capacity((n as usize) * 7 + 16);
@@ -110,10 +122,10 @@ pub struct DeepOutcome {
 pub fn child_main(json: &str) -> i32 {
     let sc = match J::parse(json).and_then(|j| DeepSc::from_json(&j)) { Ok(s) => s, Err(e) => { eprintln!("bad deep scenario: {}", e); return 2; } };
     let (text, fails) = sc.text();
-    let stream_sc = if let (Some((kind, pos, c)), true) = (&sc.fault, sc.tail == "generic") {
+    let stream_sc = if let (Some((kind, pos, c)), true) = (&sc.fault, sc.tail == "generic" || sc.tail == "generic-from-end") {
         // the generic tail: one stream fault at an absolute position of the (closed) document
         let mut evs: Vec<Ev> = text.chars().map(|c| Ev::Item(c, c.len_utf8() as u32)).collect();
-        let k = (*pos as usize).min(evs.len());
+        let k = if sc.tail == "generic-from-end" { evs.len().saturating_sub(*pos as usize) } else { (*pos as usize).min(evs.len()) };
         match kind.as_str() {
             "fail" => { evs.truncate(k); evs.push(Ev::Fail(9)); }
             "end" => { evs.truncate(k); }
